@@ -45,7 +45,8 @@ DMg == {DM("d1", {"A"}, G({}, {})), DM("d1", {"B"}, G({}, {})),
    setup     access to A through a role (r1{A}, u1{B}+r1), directly (u1{A,B}), or both (r1{A}, u1{A,B}+r1); B is kept throughout
    documents d1, d2, d3 written in this order, all in A, at most one of them also in the kept channel B
    pull      Page(0): the client holds everything
-   revoke    one or two DISTINCT actions of: role loses A | user loses the role | user loses direct A | role deleted
+   revoke    one or two DISTINCT actions of: role loses A | user loses the role | user loses direct A | role deleted |
+             deleted role created again
              (so: channel removed from the role THEN role removed from the user, and every other order / overlap), then
              optionally d3 is written again (a document changed after the revocation)
    pull      pages with one fixed limit out of {0, 1, 2} until the pull completes: every page boundary inside the revocation,
@@ -69,6 +70,7 @@ PRevoke ==
      \/ (pr["u1"].rexpl["r1"] > 0 /\ AdminPut("u1", Keys(pr["u1"].expl), {}))
      \/ (pr["u1"].expl["A"] > 0 /\ AdminPut("u1", {"B"}, Keys(pr["u1"].rexpl)))
      \/ RoleDel("r1")
+     \/ (pr["r1"].ex /\ pr["r1"].del /\ AdminPut("r1", {}, {}))            \* the deleted role is created again (without channels)
 PTouch == PageCount = 1 /\ ~Touched /\ AfterPull # {} /\ DocPut("d3", docs["d3"].chans, NoG)
 PPages ==
   \/ (PageCount = 0 /\ \A d \in Docs : docs[d].seq > 0) /\ Page(0)
@@ -78,6 +80,28 @@ PagedNext == Len(hist) < MaxSteps /\ (PSetup \/ PDocs \/ PRevoke \/ PTouch \/ PP
 PagedSpec == Init /\ [][PagedNext]_vars
 PagedExport == (PageCount > 1 /\ out.on /\ out.done) => PrintT(<<"BEH", ToJson(hist)>>)
 PagedBounded == Len(hist) < MaxSteps          \* the family must end by itself (a completed second pull), never by the step bound
+
+(* ---- directed family "paged grant" (GrantSpec): a second access change lands BETWEEN two pages of a grant back-fill ----
+   setup     u1 with no channels; d1, d2, d3 written in this order, each in A or in B; Page(0) (nothing but the user row)
+   grant     u1 {A}: the next pull back-fills A
+   pull      pages with one fixed limit of {1, 2}; after ANY page of that pull (every page boundary, also after its last one)
+             exactly one more access change: B granted too ({A,B}), A swapped for B ({B}), or A revoked ({});
+             then paging continues (same limit) until a pull completes *)
+LastIs(a)  == Len(hist) > 0 /\ hist[Len(hist)].a = a
+LastLim    == hist[CHOOSE i \in 1..Len(hist) : hist[i].a = "Page" /\ \A j \in (i + 1)..Len(hist) : hist[j].a # "Page"].lim
+Changes2   == Cardinality({i \in 1..Len(hist) : hist[i].a = "AdminPut"})      \* 1 = created, 2 = A granted, 3 = the change between pages
+GSetup  == ~pr["u1"].ex /\ AdminPut("u1", {}, {})
+GDocs   == pr["u1"].ex /\ \E d \in Docs : NextDoc(d) /\ (DocPut(d, {"A"}, NoG) \/ DocPut(d, {"B"}, NoG))
+GGrantA == PageCount = 1 /\ Changes2 = 1 /\ AdminPut("u1", {"A"}, {})
+GChange == PageCount > 1 /\ Changes2 = 2 /\ LastIs("Page") /\ \E cs \in {{"A", "B"}, {"B"}, {}} : AdminPut("u1", cs, {})
+GPages  ==
+  \/ (PageCount = 0 /\ \A d \in Docs : docs[d].seq > 0) /\ Page(0)
+  \/ (PageCount = 1 /\ Changes2 = 2 /\ \E lim \in {1, 2} : Page(lim))
+  \/ (PageCount > 1 /\ InPull /\ Page(out.lim))
+  \/ (PageCount > 1 /\ Changes2 = 3 /\ LastIs("AdminPut") /\ Page(LastLim))
+GrantNext == Len(hist) < MaxSteps /\ (GSetup \/ GDocs \/ GGrantA \/ GChange \/ GPages)
+GrantSpec == Init /\ [][GrantNext]_vars
+GrantExport == (Changes2 = 3 /\ out.on /\ out.done) => PrintT(<<"BEH", ToJson(hist)>>)
 
 (* ---- small simulation universe: one role, two channels, two documents (d2 also grants) ---- *)
 UMr2 == {UM({}, {}), UM({}, {"r1"}), UM({"A"}, {}), UM({"B"}, {"r1"})}
